@@ -168,10 +168,12 @@ check("C11", "an SSTable reads back exactly what was written", [
 check("C12", "compaction preserves content; deleted keys stay deleted", [
     ob("VerifC12_CompactPreservesView", "pkg/compaction", "2-3 real SSTables with symbolic levels and tombstone placement, one compaction cycle, merged view before = after", "2-3 files, 2 keys, levels 0-1", q={"budget_s": 400}),
     ob("VerifC12_CompactionInWorkload", "pkg/engine", "put+flush / delete+flush / triggered compaction / retire-flushed-logs+reopen steps on an engine with a level-0 trigger of 2: after every step and at the end each key reads as its latest write says, also from the compacted files after a reopen with the old logs gone",
-       "2..4 steps, writes on 1 of 2 keys, probe over both", "2..5 steps, writes on both keys", q={"budget_s": 400}, t={"budget_s": 1200}),
+       "2..4 steps, writes on 1 of 2 keys, probe over both; database fresh or aged (both keys already in level 2)", "2..5 steps, writes on both keys", q={"budget_s": 500}, t={"budget_s": 1200}),
+    ob("VerifC12_RangeCompaction", "pkg/engine", "an older generation of a symbolic subset of 3 keys sits 1 (thorough 1-2) levels down; a newer generation (1-2 puts/deletes) is flushed into one level-0 table; CompactRange over a symbolic key range [lo,hi] (thorough: 1-2 such rounds): every key reads as its latest write says in the running engine and after the logs are retired and the database is reopened on the tables alone",
+       "7 subsets x 42 write shapes x 6 ranges, 1 round, depth 1", "depth 1-2, 1-2 rounds", q={"budget_s": 500}, t={"budget_s": 1500}),
     ob("VerifC12_CrashDuringCompaction", "pkg/engine", "2 (thorough 2-3) flushed level-0 tables with successive versions of a key (value / overwrite / delete) and a second key; the process dies at any file-system step of a triggered compaction cycle (both crash models); logs retired; reopened on whatever table files the crash left: every key reads as its latest write says",
        "2 tables, every crash point of the cycle", "2-3 tables", q={"budget_s": 400}, t={"budget_s": 1200}),
-], [SIMFS, CLOCK, HASH, BLOOM, JSON, LOG, TIERA], ["range compaction (CompactRange)", "more than 3 input files in the directory-level harness"])
+], [SIMFS, CLOCK, HASH, BLOOM, JSON, LOG, TIERA], ["more than 3 levels", "size-ratio triggered compactions between deep levels (selectOverlappingCompaction)", "more than 3 input files in the directory-level harness", "the tombstone tracker's time-based retention (the clock does not advance 24 h in any harness)"])
 
 check("C13", "a replica applies the primary's log in order, exactly once", [
     ob("VerifC13_ApplyStepInductive", "pkg/replication", "one step of WALBatchApplier.ApplyEntries from an arbitrary cursor with an arbitrary batch and an apply function failing at a symbolic index", "<=3 entries per batch"),
